@@ -179,21 +179,24 @@ def ev(e, x, unary):
     raise ValueError(t)
 
 
-def ev_all(e, x, unary, out):
-    """Like ev but appends the value of every x-dependent node to ``out`` (post-order)."""
+def ev_all(e, x, unary, out, hook=None):
+    """Like ev but appends the value of every x-dependent node to ``out`` (post-order).
+    ``hook(index, value) -> value`` may replace a node's value (used for sensitivity analysis)."""
     t = e[0]
     if t == 'c':
         return e[1]
     if t == 'x':
         v = x
     elif t == 'u':
-        v = unary(e[1], ev_all(e[2], x, unary, out))
+        v = unary(e[1], ev_all(e[2], x, unary, out, hook))
     elif t in ('powi', 'powr'):
-        v = ev_all(e[1], x, unary, out) ** e[2]
+        v = ev_all(e[1], x, unary, out, hook) ** e[2]
     else:
-        a = ev_all(e[1], x, unary, out)
-        b = ev_all(e[2], x, unary, out)
+        a = ev_all(e[1], x, unary, out, hook)
+        b = ev_all(e[2], x, unary, out, hook)
         v = a + b if t == '+' else a - b if t == '-' else a * b if t == '*' else a / b
+    if hook is not None:
+        v = hook(len(out), v)
     out.append(v)
     return v
 
@@ -329,6 +332,41 @@ class Analysis(object):
 
     def exact(self, n):
         return mp.factorial(n) * self.jets[-1].c[n]
+
+    def sensitivity(self, n):
+        """(sens_0, sens_n):  sum over the x-dependent nodes g of |d f^(k)(x) / d log g|, k = 0 and n:
+        the first-order effect on the value / on the n-th derivative of a relative perturbation of each
+        intermediate result - the conditioning of evaluating the program in floating point.
+        Computed by perturbing one node at a time by (1 + 1e-20) in 45-digit jet arithmetic."""
+        key = ('sens', n)
+        cache = self.__dict__.setdefault('_sens', {})
+        if key in cache:
+            return cache[key]
+        K = n + 1
+        delta = mp.mpf(10) ** -20
+        with mp.workdps(45):
+            def run(hook):
+                out = []
+                ev_all(self.tree, Jet.affine(self.x, 1, max(K, 2)), _obj_unary, out, hook)
+                root = out[-1]
+                if self.wrap is not None:
+                    root = apply_wrap(self.wrap, root)
+                return root, len(out)
+            try:
+                base, nn = run(None)
+                s0 = mp.mpf(0)
+                sn = mp.mpf(0)
+                for k in range(nn):
+                    if k == 0 and self.tree[0] == 'x':
+                        continue
+                    pert, _ = run(lambda i, v, k=k: v * (1 + delta) if i == k else v)
+                    s0 += abs(pert.c[0] - base.c[0]) / delta
+                    sn += abs(pert.c[n] - base.c[n]) / delta
+                res = (float(s0), float(sn * mp.factorial(n)))
+            except (JetDomainError, ZeroDivisionError, ValueError, OverflowError):
+                res = None
+        cache[key] = res
+        return res
 
     def _sup_at(self, rho_min):
         """Smallest certified (rho, sups) with rho >= rho_min, or None."""
